@@ -291,6 +291,8 @@ def run(ctx):
         for chunk in core.split(segs, 16):
             jobs.append((name, chunk, rects))
     part = core.fan_out(ctx, _chunk, jobs)
+    from .. import callforms              # pylint: disable=import-outside-toplevel
+    part.merge(callforms.explore("C08"))
     cnt = part.counters
     coverage = {
         "states": cnt.get("cases", 0),
@@ -318,6 +320,9 @@ def run(ctx):
 
 
 def replay(case):
+    if case.get("kind") == "callform":
+        from .. import callforms          # pylint: disable=import-outside-toplevel
+        return callforms.replay(case)
     seg = tuple(tuple(p) for p in case["seg"])
     rect = tuple(tuple(p) for p in case["rect"])
     return [m for _c, m in check_case(seg, rect, case.get("as_tuples", False))]
